@@ -152,6 +152,9 @@ def clock_value():
 def jenc(o):
     """Encode histories / observations into JSON-able structures (lossless for our alphabets)."""
     if isinstance(o, RealDatetime):
+        key = getattr(o.tzinfo, "key", None)
+        if key:
+            return {"$dt": o.replace(tzinfo=None).isoformat(), "$fold": o.fold, "$zi": key}
         return {"$dt": o.isoformat(), "$fold": o.fold}
     if isinstance(o, float):
         if o != o or o in (float("inf"), float("-inf")):
@@ -179,7 +182,12 @@ def jdec(o):
         return [jdec(i) for i in o]
     if isinstance(o, dict):
         if "$dt" in o:
-            return RealDatetime.fromisoformat(o["$dt"]).replace(fold=o.get("$fold", 0))
+            d = RealDatetime.fromisoformat(o["$dt"]).replace(fold=o.get("$fold", 0))
+            if "$zi" in o:
+                import zoneinfo
+
+                d = d.replace(tzinfo=zoneinfo.ZoneInfo(o["$zi"]))
+            return d
         if "$f" in o:
             return float(o["$f"])
         if "$b" in o:
